@@ -2,6 +2,9 @@ import NessaiVerif.Model.Pool
 import Mathlib.Algebra.Order.Field.Basic
 import Mathlib.Tactic.FieldSimp
 import Mathlib.Tactic.Ring
+import Mathlib.Algebra.Order.Ring.Rat
+import Mathlib.Algebra.Order.Field.Rat
+import Mathlib.Tactic.NormNum.Basic
 /-
 C09 — the real-valued part: radially truncated latent draws (Mathlib; any ordered field, hence ℚ and ℝ).
 -/
